@@ -642,3 +642,55 @@ pub fn conversion_law<S: Src>(s: &mut S) {
     }
     cov!(s, "conversion law reachable", true);
 }
+
+// ---------------------------------------------------------------- behaviour contract of known finding F6
+/// text::Dna::try_from_bits is the identity embedding of all 256 bytes (what the code does today;
+/// the documented alphabet is A,C,G,T,N only - known finding F6).  Any other deviation is new.
+pub fn text_bits_identity<S: Src>(s: &mut S) {
+    let b = s.u8();
+    match text::Dna::try_from_bits(b) {
+        Some(x) => {
+            chk!(s, "F6 behaviour: try_from_bits(b) holds exactly b", x.to_bits() == b && x == text::Dna::unsafe_from_bits(b));
+        }
+        None => chk!(s, "F6 behaviour: try_from_bits accepts every byte", false),
+    }
+    cov!(s, "F6 behaviour reachable", true);
+}
+
+// ---------------------------------------------------------------- dispatch by harness name
+/// run the law behind a Kani harness name; false if the name is unknown
+pub fn dispatch<S: Src>(name: &str, s: &mut S) -> bool {
+    match name {
+        "codec_contract_dna" => codec_contract::<Dna, S>(s),
+        "codec_contract_iupac" => codec_contract::<Iupac, S>(s),
+        "codec_contract_amino" => codec_contract::<Amino, S>(s),
+        "codec_contract_text" => codec_contract::<text::Dna, S>(s),
+        "codec_contract_masked_dna" => codec_contract::<masked::dna::Dna, S>(s),
+        "codec_contract_masked_iupac" => codec_contract::<masked::iupac::Iupac, S>(s),
+        "codec_contract_degenerate" => codec_contract::<degenerate::dna::Dna, S>(s),
+        "complement_dna" => complement_law::<Dna, S>(s),
+        "complement_iupac" => complement_law::<Iupac, S>(s),
+        "complement_masked_dna" => complement_law::<masked::dna::Dna, S>(s),
+        "complement_masked_iupac" => complement_law::<masked::iupac::Iupac, S>(s),
+        "complement_degenerate" => complement_law::<degenerate::dna::Dna, S>(s),
+        "mask_iupac" => mask_law_iupac(s),
+        "mask_dna" => mask_law_dna(s),
+        "iupac_sets" => iupac_set_law(s),
+        "amino_table" => amino_table_law(s),
+        "conversions" => conversion_law(s),
+        "text_bits_identity" => text_bits_identity(s),
+        _ => return false,
+    }
+    true
+}
+
+#[cfg(not(kani))]
+pub fn all_items<S: Src>(s: &mut S) {
+    codec_items::<Dna, S>(s);
+    codec_items::<Iupac, S>(s);
+    codec_items::<Amino, S>(s);
+    codec_items::<text::Dna, S>(s);
+    codec_items::<masked::dna::Dna, S>(s);
+    codec_items::<masked::iupac::Iupac, S>(s);
+    codec_items::<degenerate::dna::Dna, S>(s);
+}
